@@ -7,5 +7,5 @@ git -C /repo worktree add -q --detach $wt HEAD || exit 2
 if ! git -C $wt apply --3way $patch 2>/tmp/seedtest.err; then
     echo "PATCH DOES NOT APPLY: $(head -3 /tmp/seedtest.err)"; git -C /repo worktree remove --force $wt; exit 3
 fi
-(cd /verif && VERIF_REPO=$wt /venv/bin/python run.py "$@" 2>&1 | grep -v "^Falsifying\|^    \|^)\|^  File\|^Traceback" | cut -c1-500 | tail -5)
+(cd /verif && VERIF_EVIDENCE_DIR=/var/tmp/verif-scratch-evidence VERIF_REPLAY_DIR=/var/tmp/verif-scratch-replay VERIF_REPO=$wt /venv/bin/python run.py "$@" 2>&1 | grep -v "^Falsifying\|^    \|^)\|^  File\|^Traceback" | cut -c1-500 | tail -5)
 git -C /repo worktree remove --force $wt
